@@ -473,16 +473,29 @@ def trso_line10(
     :param new_surrogate_interventions: Dict mapping domains to interventions performed in that domain.
     :returns: A modified TRSOQuery
     """
-    ordering = list(query.graphs[query.domain].topological_sort())
-    expressions = []
+    # transport nodes only mark the domain, they are not variables of its distribution
+    ordering = [
+        node
+        for node in query.graphs[query.domain].topological_sort()
+        if not is_transport_node(node)
+    ]
+    expressions: list[Expression] = []
     for node in district:
         i = ordering.index(node)
         pre_node = set(ordering[:i])
-        # note tikka splits this into two expressions that when taken together equal pre_node
-        distribution = Distribution.safe(node | pre_node)
-        expressions.append(
-            PopulationProbability(population=query.domain, distribution=distribution)
-        )
+        if _is_joint(query.expression):
+            # note tikka splits this into two expressions that when taken together equal pre_node
+            distribution = Distribution.safe(node | pre_node)
+            expressions.append(
+                PopulationProbability(population=query.domain, distribution=distribution)
+            )
+        else:
+            # the working distribution is no longer a joint that can be conditioned by notation:
+            # P'(v_i | v^(i-1)) = sum_{later} P' / sum_{later, v_i} P'
+            later = set(ordering[i + 1 :])
+            expressions.append(
+                Sum.safe(query.expression, later) / Sum.safe(query.expression, later | {node})
+            )
 
     new_query = deepcopy(query)
     new_query.target_interventions = query.target_interventions.intersection(district)
@@ -490,6 +503,13 @@ def trso_line10(
     new_query.graphs[query.domain] = query.graphs[query.domain].subgraph(district)
     new_query.surrogate_interventions = new_surrogate_interventions
     return new_query
+
+
+def _is_joint(expression: Expression) -> bool:
+    """Check if the expression is (a marginal of) a single unconditional probability."""
+    if isinstance(expression, Sum):
+        expression = expression.expression
+    return isinstance(expression, Probability) and not expression.parents
 
 
 def trso(query: TRSOQuery) -> Expression | None:  # noqa:C901
